@@ -19,6 +19,15 @@ Proof.
   vm_compute. repeat split; try reflexivity. discriminate.
 Qed.
 
+Lemma C14_not_full_proof :
+  ~ (forall c ring cl, pf_claims_ok c cl = true ->
+     forall i j a b, i <> j -> nth_error (pf_plan c ring cl) i = Some a -> nth_error (pf_plan c ring cl) j = Some b ->
+       seqb a b = false -> seqb b a = false -> c_state a <> c_state b).
+Proof.
+  intro H. destruct C14_refuted_proof as (c & ring & cl & i & j & a & b & Hok & Hij & Hi & Hj & S1 & S2 & E & _).
+  exact (H c ring cl Hok i j a b Hij Hi Hj S1 S2 E).
+Qed.
+
 Lemma C14_holds_except_proof : forall c ring cl,
   pf_claims_ok c cl = true -> c14_dom c = false -> states_exclusive (pf_plan c ring cl).
 Proof.
